@@ -46,6 +46,7 @@ def _worker(job):
         E.obl_timeout_ms = getattr(H, "OBL_TIMEOUT_MS", 60000)
         E.max_viol_per_clause = getattr(H, "MAX_VIOL_PER_CLAUSE", 2)
         E.lazy_recip = bool(scen.get("lazy_recip", getattr(H, "LAZY_RECIP", False)))
+        E.index_mode = scen.get("index_mode", getattr(H, "INDEX_MODE", "obligation"))
         W = world.SymWorld()
         fn = getattr(H, scen.get("fn", "run"))
         path_models = []
